@@ -149,6 +149,8 @@ def run(ctx):
     ctx.traces += len(evs)
     ctx.sample({"mode": "V", "event": evs[0], "verdict": verdicts[0]})
     ctx.stage("V", kind="code->spec", events=len(evs), rejected=sum(1 for v in verdicts if v not in ("ok", "skip")))
+    import plot_extra
+    plot_extra.run_stage(ctx)            # growth beyond the list: the other small helpers of plot_utils (observations only)
     ctx.trusted += ["TLC 1.8", "harness/c18.py affine maps (exact in binary floating point)", "vlib TLA value parser"]
     ctx.assumptions += ["inputs are integer lattice points mapped through exact affine maps; float rounding off the lattice is not modelled",
                         "lower <= upper and tolerance >= 0 (the statement's domain)"]
